@@ -488,6 +488,45 @@ impl C08Check {
                     now = 0;
                     stats.inc("fault.restart");
                 }
+                "refault" if restarted => {
+                    // the latch and the safe state work again for a fault after the restart (or after clear_fault)
+                    let e = guard("simulation_fault", || rt.simulation_fault("after restart"))?;
+                    if variant_name(&e) != "SimulationFault" {
+                        return Err(Violation::new(format!("harness/unexpected-fault/{}", variant_name(&e)), format!("op {opi}: {e:?}")));
+                    }
+                    if !rt.faulted() {
+                        return Err(Violation::new("latch/not-faulted/second-fault-after-restart", format!("op {opi}: after restart and a new {e:?} the resource is not faulted")));
+                    }
+                    if policy == FaultPolicy::SafeHalt {
+                        let image = rt.io().outputs().to_vec();
+                        for (size, byte, bit, val, _) in &safe {
+                            if !image_holds(&image, size, *byte, *bit, *val) {
+                                return Err(Violation::new(
+                                    "safe/image-missing-value/second-fault-after-restart",
+                                    format!("op {opi}: output image {image:?} does not hold safe value %Q{size}{byte}.{bit}={val}"),
+                                ));
+                            }
+                        }
+                    }
+                    let exec0 = verif_hooks::budget::executed();
+                    now += 10_000_000;
+                    rt.set_current_time(Duration::from_nanos(now));
+                    let r = guard("execute_cycle", || rt.execute_cycle())?;
+                    if !matches!(r, Err(RuntimeError::ResourceFaulted)) || verif_hooks::budget::executed() != exec0 {
+                        return Err(Violation::new("halt/cycle-not-refused/second-fault-after-restart", format!("op {opi}: cycle returned {r:?}, {} budget points executed", verif_hooks::budget::executed() - exec0)));
+                    }
+                    stats.inc("probe.second_fault_after_restart");
+                    return Ok(Outcome { fired: true, budget_points_in_fault_cycle: points });
+                }
+                "clear_fault" if !restarted => {
+                    // the other way out of the latch: behaves like a restart for what follows
+                    rt.clear_fault();
+                    if rt.faulted() {
+                        return Err(Violation::new("restart/still-faulted", "faulted after clear_fault".to_string()));
+                    }
+                    restarted = true;
+                    stats.inc("fault.clear_fault");
+                }
                 "debug_write" if !restarted => {
                     // a queued debugger write must not reach any variable while the resource is halted
                     debug.enqueue_global_write("g_cnt", Value::DInt(op["val"].as_i64().unwrap_or(99) as i32));
@@ -774,6 +813,17 @@ impl Check for C08Check {
             ops.push(json!({"k": "cycle", "dt": 10_000_000}));
             ops.push(json!({"k": "cycle", "dt": 10_000_000}));
         }
+        let mut x = rng.fork("second");
+        if x.chance(1, 2) && policy != "restart" && kind != "watchdog" {
+            if !ops.iter().any(|op| op["k"] == "restart") {
+                // (a program fault would simply fire again after clear_fault: its trigger variable is still set)
+                ops.push(if x.bool() && kind != "div" { json!({"k": "clear_fault"}) } else { json!({"k": "restart", "mode": "warm"}) });
+            }
+            if x.bool() {
+                ops.push(json!({"k": "cycle", "dt": 10_000_000}));
+            }
+            ops.push(json!({"k": "refault"}));
+        }
         json!({
             "trips": cfg.range(1, 3),
             "n_drivers": n_drivers,
@@ -789,7 +839,7 @@ impl Check for C08Check {
     }
 
     fn run(&self, case: &Json, stats: &mut Stats) -> Result<(), Violation> {
-        for p in ["probe.safe_state_checked", "probe.safe_delivery_failed_on_a_driver", "probe.safe_delivery_with_failing_and_healthy_driver", "probe.refused_cycle", "probe.cycle_after_restart", "probe.halt_without_safe_state"] {
+        for p in ["probe.safe_state_checked", "probe.safe_delivery_failed_on_a_driver", "probe.safe_delivery_with_failing_and_healthy_driver", "probe.refused_cycle", "probe.cycle_after_restart", "probe.halt_without_safe_state", "probe.second_fault_after_restart"] {
             stats.add(p, 0);
         }
         stats.add("probe.runner_with_shared_globals", 0);
